@@ -46,7 +46,7 @@ const (
 // ---- operations ---------------------------------------------------------------
 
 type op struct {
-	Kind string `json:"k"` // est raw resume renew tick inval sweep
+	Kind string `json:"k"` // est raw mint resume renew tick inval sweep
 	// est: Enc (true = AES session, false = plaintext session)
 	Enc  bool `json:"enc,omitempty"`
 	Auth bool `json:"auth,omitempty"` // est: CLAIMTOBE authentication, the server maps the identity (PostAuthPolicy)
@@ -56,6 +56,8 @@ type op struct {
 	Custom bool   `json:"custom,omitempty"` // store into the server's custom cache (raw); serve with a custom cache (resume)
 	Pol    string `json:"pol,omitempty"`    // none auth unauth
 	NoExp  bool   `json:"noexp,omitempty"`  // raw: zero expiration
+	Inh    bool   `json:"inh,omitempty"`    // raw: SetInherited(true), as every imported (inherited / claim / minted) session is
+	Inv    bool   `json:"inv,omitempty"`    // resume: Invalidate(session) lands while the server is writing its reply
 	// resume
 	N     int    `json:"n,omitempty"`     // target session ordinal (also renew / inval)
 	Req   string `json:"req,omitempty"`   // legit idonly wrongkey rightkey unknown onechar
@@ -102,8 +104,9 @@ type world struct {
 
 type recConn struct {
 	net.Conn
-	mu     sync.Mutex
-	rd, wr bytes.Buffer
+	mu      sync.Mutex
+	rd, wr  bytes.Buffer
+	onWrite func() // runs once, when the first write on this end begins (before it can block on the peer)
 }
 
 func (r *recConn) Read(p []byte) (int, error) {
@@ -114,6 +117,10 @@ func (r *recConn) Read(p []byte) (int, error) {
 	return n, err
 }
 func (r *recConn) Write(p []byte) (int, error) {
+	if f := r.onWrite; f != nil {
+		r.onWrite = nil
+		f()
+	}
 	n, err := r.Conn.Write(p)
 	r.mu.Lock()
 	r.wr.Write(p[:n])
@@ -197,8 +204,15 @@ type srvObs struct {
 // serve runs the real ServerHandshake on conn, then the application phase:
 // read one message (int, string), then send the canary message.
 func serve(conn net.Conn, cfg *security.SecurityConfig, peer string) srvObs {
+	return serveH(conn, cfg, peer, nil)
+}
+
+// serveH: onFirstWrite runs in the server goroutine at the moment it starts writing its first
+// frame (for a resumption with ResumeResponse: the reply) - the deterministic stand-in for another
+// goroutine acting while that write is blocked on a slow requester.
+func serveH(conn net.Conn, cfg *security.SecurityConfig, peer string, onFirstWrite func()) srvObs {
 	defer conn.Close()
-	rec := &recConn{Conn: conn}
+	rec := &recConn{Conn: conn, onWrite: onFirstWrite}
 	st := stream.NewStream(rec)
 	st.SetPeerAddr(peer)
 	auth := security.NewAuthenticator(cfg, st)
@@ -455,6 +469,34 @@ func (w *world) establish(enc, authn bool) *sess {
 	return s
 }
 
+// mint registers a claim session the way a startd does (MintClaimSession: imported state, flagged inherited)
+func (w *world) mint(n int) *sess {
+	c := security.GetSessionCache()
+	m, err := security.MintClaimSession(c, security.MintClaimOptions{
+		Sinful: fmt.Sprintf("<10.9.9.9:9618?sock=startd_%d>", n), Birthdate: 1700000000, SequenceNum: n,
+		Lifetime: sessDuration * time.Second,
+	})
+	if err != nil {
+		return nil
+	}
+	e, ok := c.VerifSessionKeys()[m.SessionID()]
+	if !ok {
+		return nil
+	}
+	s := &sess{id: m.SessionID(), exp: w.now + sessDuration, lease: int64(e.Lease() / time.Second), keyKind: "minted"}
+	if ki := e.KeyInfo(); ki != nil {
+		s.key, s.proto = ki.Data, ki.Protocol
+	}
+	s.usable = s.key != nil && len(s.key) == 32 && (s.proto == "AES" || s.proto == "AESGCM")
+	if pol := e.Policy(); pol != nil {
+		s.hasPol = true
+		s.authd, _ = pol.EvaluateAttrBool("Authenticated")
+		s.user, _ = pol.EvaluateAttrString("User")
+		s.valid, _ = pol.EvaluateAttrString("ValidCommands")
+	}
+	return s
+}
+
 func (w *world) storeRaw(o op, n int) *sess {
 	s := &sess{id: fmt.Sprintf("rawhost:77:1700000000:%d", n), lease: sessLease, exp: w.now + sessDuration, custom: o.Custom && w.custom != nil, keyKind: o.Key}
 	var ki *security.KeyInfo
@@ -494,7 +536,11 @@ func (w *world) storeRaw(o op, n int) *sess {
 		exp = time.Time{}
 		s.exp = -1
 	}
-	w.cacheOf(s).Store(security.NewSessionEntry(s.id, clientAddr, ki, pol, exp, sessLease*time.Second, ""))
+	en := security.NewSessionEntry(s.id, clientAddr, ki, pol, exp, sessLease*time.Second, "")
+	if o.Inh {
+		en.SetInherited(true)
+	}
+	w.cacheOf(s).Store(en)
 	return s
 }
 
@@ -602,6 +648,14 @@ func runHistory(h history) runOut {
 			} else {
 				term = fmt.Sprintf("YStoreP n%d %s %s %s z%d z%d", len(w.sess), core.Bool(s.custom), keyTerm(s), polTerm(s), sessDuration, sessLease)
 			}
+		case "mint":
+			s := w.mint(len(w.sess) + 1)
+			w.sess = append(w.sess, s)
+			if s == nil {
+				fail("establish-failed", "%s: MintClaimSession failed", what)
+				return out
+			}
+			term = fmt.Sprintf("YStoreP n%d false %s %s z%d z%d", len(w.sess), keyTerm(s), polTerm(s), sessDuration, s.lease)
 		case "tick":
 			d := -time.Duration(o.Dt) * time.Second
 			for _, c := range []*security.SessionCache{security.GetSessionCache(), w.custom} {
@@ -687,9 +741,17 @@ func runHistory(h history) runOut {
 			}
 			cc, sc := net.Pipe()
 			ch := make(chan srvObs, 1)
-			go func() { ch <- serve(sc, serverConfigX(true, w.custom, false, o.Opt), peer) }()
+			var hook func()
+			invRan, invRet := false, false
+			if o.Inv {
+				if target == nil || o.Req == "legit" {
+					continue
+				}
+				hook = func() { invRan, invRet = true, w.cacheOf(target).Invalidate(target.id) }
+			}
+			go func() { ch <- serveH(sc, serverConfigX(true, w.custom, false, o.Opt), peer, hook) }()
 			var ro reqObs
-			want := o.Want
+			want := o.Want || o.Inv
 			cmd := o.Cmd
 			switch o.Req {
 			case "legit":
@@ -789,6 +851,19 @@ func runHistory(h history) runOut {
 			term = fmt.Sprintf("YResume %s %s z%d %s %s %s %s %s %s %s %s", sidTerm, core.Bool(want), cmd, core.Bool(so.ok), rep,
 				core.Bool(so.authd), core.Opt(so.user != "", hexs(so.user)), core.Opt(so.valid != "", hexs(so.valid)),
 				core.Bool(so.encFlag), core.Bool(so.resumed), core.Bool(so.streamEnc && keyEq))
+			if o.Inv {
+				out.checks++
+				if !invRan {
+					fail("no-reply-written", "%s: the server wrote nothing although a reply was requested", what)
+				}
+				// the session was invalidated while this resumption was in flight: from now on it is dead
+				target.dead = true
+				if _, still := w.cacheOf(target).VerifSessionKeys()[target.id]; still {
+					fail("invalidated-session-reinserted", "%s: session %d was invalidated while the resumption reply was being written, and is in the cache again after the resumption completed", what, o.N)
+				}
+				term = "YResumeInv" + strings.TrimPrefix(term, "YResume") + " " + core.Bool(target.custom) + " " + core.Bool(invRet)
+				out.counts["resume-with-invalidate-during-reply"]++
+			}
 			if so.ok && so.command != cmd {
 				fail("command-not-restored", "%s: resumed command %d, requested %d", what, so.command, cmd)
 			}
@@ -934,9 +1009,16 @@ func randOp(c *core.Ctx, nsess int, custom bool) op {
 			enc := r.Intn(3) > 0
 			return op{Kind: "est", Enc: enc, Auth: r.Intn(2) == 0}
 		}
-		return op{Kind: "raw", Key: keys[r.Intn(len(keys))], Custom: custom && r.Intn(2) == 0, Pol: pols[r.Intn(4)], NoExp: r.Intn(8) == 0}
+		if r.Intn(5) == 0 {
+			return op{Kind: "mint"}
+		}
+		return op{Kind: "raw", Key: keys[r.Intn(len(keys))], Custom: custom && r.Intn(2) == 0, Pol: pols[r.Intn(4)], NoExp: r.Intn(8) == 0, Inh: r.Intn(3) == 0}
 	case x < 62:
-		return op{Kind: "resume", N: 1 + r.Intn(nsess), Req: reqs[r.Intn(len(reqs))], Want: r.Intn(3) > 0, Other: r.Intn(4) == 0, Opt: r.Intn(2) == 0, Cmd: []int{421, 60007, 0}[r.Intn(3)]}
+		o := op{Kind: "resume", N: 1 + r.Intn(nsess), Req: reqs[r.Intn(len(reqs))], Want: r.Intn(3) > 0, Other: r.Intn(4) == 0, Opt: r.Intn(2) == 0, Cmd: []int{421, 60007, 0}[r.Intn(3)]}
+		if r.Intn(8) == 0 && (o.Req == "idonly" || o.Req == "rightkey" || o.Req == "wrongkey") {
+			o.Inv = true
+		}
+		return o
 	case x < 70:
 		return op{Kind: "renew", N: 1 + r.Intn(nsess)}
 	case x < 86:
@@ -985,6 +1067,14 @@ func gen(c *core.Ctx) error {
 		{{Kind: "raw", Key: "empty", Pol: "auth"}, R(1, "idonly", true)},
 		{{Kind: "raw", Key: "blowfish32", Pol: "auth"}, R(1, "idonly", true), R(1, "rightkey", true)},
 		{{Kind: "raw", Key: "aes16", Pol: "auth"}, R(1, "idonly", true)},
+		// imported state past its expiration
+		{{Kind: "raw", Key: "aesgcm32", Pol: "auth", Inh: true}, R(1, "rightkey", true), {Kind: "tick", Dt: 3000}, R(1, "rightkey", true), R(1, "rightkey", false), R(1, "idonly", true)},
+		{{Kind: "mint"}, R(1, "rightkey", true), {Kind: "tick", Dt: 1500}, R(1, "rightkey", true), {Kind: "tick", Dt: 1500}, R(1, "rightkey", true), R(1, "idonly", true), {Kind: "renew", N: 1}, R(1, "rightkey", false)},
+		{{Kind: "raw", Key: "aes32", Pol: "auth", Inh: true}, {Kind: "tick", Dt: 3000}, {Kind: "renew", N: 1}, R(1, "rightkey", true), {Kind: "sweep"}, R(1, "rightkey", true)},
+		// Invalidate lands while the reply of an in-flight resumption is being written
+		{{Kind: "raw", Key: "aes32", Pol: "auth"}, {Kind: "resume", N: 1, Req: "rightkey", Want: true, Inv: true, Cmd: 421}, R(1, "rightkey", true), R(1, "rightkey", false), R(1, "idonly", true)},
+		{{Kind: "est", Enc: true}, {Kind: "resume", N: 1, Req: "idonly", Want: true, Inv: true, Cmd: 421}, R(1, "legit", true), R(1, "idonly", true)},
+		{{Kind: "mint"}, {Kind: "tick", Dt: 500}, {Kind: "resume", N: 1, Req: "rightkey", Want: true, Inv: true, Opt: true, Cmd: 60007}, {Kind: "tick", Dt: 500}, R(1, "rightkey", true)},
 		{{Kind: "raw", Key: "noproto32", Pol: "auth"}, {Kind: "resume", N: 1, Req: "idonly", Want: true, Opt: true, Cmd: 421}, {Kind: "resume", N: 1, Req: "idonly", Opt: true, Cmd: 421}, R(1, "idonly", true), {Kind: "resume", N: 1, Req: "rightkey", Want: true, Opt: true, Cmd: 421}},
 		{{Kind: "est", Enc: true, Auth: true}, R(1, "legit", true), {Kind: "resume", N: 1, Req: "legit", Want: true, Opt: true, Cmd: 60007}, R(1, "idonly", true), {Kind: "tick", Dt: 500}, R(1, "legit", true)},
 		{{Kind: "est", Enc: false, Auth: true}, R(1, "legit", true), {Kind: "resume", N: 1, Req: "idonly", Want: true, Opt: true, Cmd: 421}},
@@ -1028,9 +1118,10 @@ func gen(c *core.Ctx) error {
 		{op{Kind: "est", Enc: true, Auth: true}, "legit"},
 		{op{Kind: "est", Enc: false}, "legit"},
 		{op{Kind: "raw", Key: "aes32", Pol: "auth"}, "rightkey"},
+		{op{Kind: "mint"}, "rightkey"},
 		{op{Kind: "raw", Key: "nil", Pol: "auth"}, "wrongkey"},
 	} {
-		alpha := []op{{Kind: "resume", N: 1, Req: "idonly", Want: true, Opt: true, Cmd: 421}, R(1, k.holder, true), {Kind: "renew", N: 1}, {Kind: "tick", Dt: 1500}, {Kind: "tick", Dt: 3000}, {Kind: "inval", N: 1}, {Kind: "sweep"}}
+		alpha := []op{{Kind: "resume", N: 1, Req: "idonly", Want: true, Opt: true, Cmd: 421}, R(1, k.holder, true), {Kind: "renew", N: 1}, {Kind: "tick", Dt: 1500}, {Kind: "tick", Dt: 3000}, {Kind: "inval", N: 1}, {Kind: "sweep"}, {Kind: "resume", N: 1, Req: "idonly", Want: true, Inv: true, Cmd: 421}}
 		var rec func(prefix []op, depth int)
 		rec = func(prefix []op, depth int) {
 			if len(prefix) > 1 {
@@ -1057,7 +1148,7 @@ func gen(c *core.Ctx) error {
 		ns := 0
 		for k := 0; k < l; k++ {
 			o := randOp(c, ns, cu)
-			if o.Kind == "est" || o.Kind == "raw" {
+			if o.Kind == "est" || o.Kind == "raw" || o.Kind == "mint" {
 				ns++
 			}
 			ops = append(ops, o)
